@@ -327,6 +327,12 @@ func (n *Node) boot() {
 		}
 		lbtcWatcher = lw
 	}
+	if btcWatcher != nil {
+		btcWatcher = &watchShim{n: n, chain: "btc", inner: btcWatcher}
+	}
+	if lbtcWatcher != nil {
+		lbtcWatcher = &watchShim{n: n, chain: "lbtc", inner: lbtcWatcher}
+	}
 	n.BtcW, n.LbtcW = btcWatcher, lbtcWatcher
 
 	store := &storeShim{n: n, real: realStore}
